@@ -341,31 +341,36 @@ theorem sigL_rCase (cfg : RCfg) (rec : RRec) (hrec : RecPreserves rec) (anc : Li
                   · rw [hd, hc]
                 · rw [hd, hc]
 
+theorem sigL_rValuesStep (cfg : RCfg) (st : RSt) (pre : Text) (fidx : Nat) (ks : List FNode) (tidx : Nat) (ks1 : List FNode)
+    (hstep : rValuesStep cfg st pre fidx ks tidx = .ok ks1) : sigL ks1 = sigL ks := by
+  unfold rValuesStep at hstep
+  split at hstep
+  · simp only [Except.ok.injEq] at hstep; rw [hstep]
+  · split at hstep
+    · cases ho : rGetOffset cfg st pre ks fidx with
+      | error e => rw [ho] at hstep; cases hstep
+      | ok o =>
+        rw [ho] at hstep
+        simp only [Except.map, Except.ok.injEq] at hstep
+        rw [← hstep, sigL_insertAt _ _ _ (sig_rNl cfg st _)]
+    · cases ho : rGetOffset cfg st pre ks tidx with
+      | error e => rw [ho] at hstep; cases hstep
+      | ok o =>
+        rw [ho] at hstep
+        simp only [Except.map, Except.ok.injEq] at hstep
+        rw [← hstep, sigL_insertAfterIdx _ _ _ (sig_rNl cfg st _)]
+
 theorem sigL_rValuesLoop (cfg : RCfg) (st : RSt) (pre : Text) (fidx : Nat) : ∀ (fuel : Nat) (ks : List FNode) (tidx : Nat)
     (ks' : List FNode), rValuesLoop cfg st pre fidx fuel ks tidx = .ok ks' → sigL ks' = sigL ks
   | 0, ks, tidx, ks', h => by simp only [rValuesLoop, Except.ok.injEq] at h; rw [h]
   | fuel+1, ks, tidx, ks', h => by
     unfold rValuesLoop at h
-    simp only at h
-    split at h
-    · cases h
-    · rename_i ks1 hstep
-      have h1 : sigL ks1 = sigL ks := by
-        split at hstep
-        · simp only [Except.ok.injEq] at hstep; rw [hstep]
-        · split at hstep
-          · cases ho : rGetOffset cfg st pre ks fidx with
-            | error e => rw [ho] at hstep; cases hstep
-            | ok o =>
-              rw [ho] at hstep
-              simp only [Except.map, Except.ok.injEq] at hstep
-              rw [← hstep, sigL_insertAt _ _ _ (sig_rNl cfg st _)]
-          · cases ho : rGetOffset cfg st pre ks tidx with
-            | error e => rw [ho] at hstep; cases hstep
-            | ok o =>
-              rw [ho] at hstep
-              simp only [Except.map, Except.ok.injEq] at hstep
-              rw [← hstep, sigL_insertAfterIdx _ _ _ (sig_rNl cfg st _)]
+    cases hs : rValuesStep cfg st pre fidx ks tidx with
+    | error e => rw [hs] at h; cases h
+    | ok ks1 =>
+      rw [hs] at h
+      simp only at h
+      have h1 := sigL_rValuesStep cfg st pre fidx ks tidx ks1 hs
       split at h
       · simp only [Except.ok.injEq] at h; rw [← h, h1]
       · rw [sigL_rValuesLoop cfg st pre fidx fuel _ _ _ h, h1]
@@ -495,30 +500,44 @@ theorem sigL_aIdentifierList (ch : Text) (rec : ARec) (hrec : ARecPreserves rec)
   · rw [sigL_aDefault ch rec hrec _ _ _ _ h, sigL_aBreakIdentifiers _ (sig_aNl ch st _)]
   · cases h
 
+theorem sigTL_aCaseBreak (ch : Text) (st : ASt) (i : Nat) (tl tl1 : TL) (stmt : Option (Nat × FNode))
+    (h : aCaseBreak ch st i tl stmt = .ok tl1) : sigL (untag tl1) = sigL (untag tl) := by
+  unfold aCaseBreak at h
+  split at h
+  · split at h
+    · cases h
+    · split at h
+      · cases h
+      · simp only [Except.ok.injEq] at h
+        rw [← h, sigTL_insertAt _ _ _ (sig_aNl ch st _)]
+  · simp only [Except.ok.injEq] at h; rw [h]
+
+theorem sigTL_aCasePad (ch : Text) (maxW : Nat) (tl1 tl2 : TL) (cond : Option TL)
+    (h : aCasePad ch maxW tl1 cond = .ok tl2) : sigL (untag tl2) = sigL (untag tl1) := by
+  unfold aCasePad at h
+  split at h
+  · split at h
+    · cases h
+    · simp only [Except.ok.injEq] at h
+      rw [← h, sigTL_insertAfterIdx _ _ _ (sig_wsLeaf _)]
+  · simp only [Except.ok.injEq] at h; rw [h]
+
 theorem sigTL_aCaseLoop (ch : Text) (st : ASt) (maxW : Nat) : ∀ (items : List (Option TL × Option (Nat × FNode))) (i : Nat) (tl tl' : TL),
     aCaseLoop ch st maxW i tl items = .ok tl' → sigL (untag tl') = sigL (untag tl)
   | [], i, tl, tl', h => by simp only [aCaseLoop, Except.ok.injEq] at h; rw [h]
   | (cond, stmt) :: rest, i, tl, tl', h => by
     unfold aCaseLoop at h
-    simp only at h
-    split at h
-    · cases h
-    · rename_i tl1 htl1
-      have h1 : sigL (untag tl1) = sigL (untag tl) := by
-        split at htl1
-        · split at htl1
-          · cases htl1
-          · split at htl1
-            · cases htl1
-            · simp only [Except.ok.injEq] at htl1
-              rw [← htl1, sigTL_insertAt _ _ _ (sig_aNl ch st _)]
-        · simp only [Except.ok.injEq] at htl1; rw [htl1]
-      split at h
-      · split at h
-        · cases h
-        · rw [sigTL_aCaseLoop ch st maxW rest _ _ _ h, sigTL_insertAfterIdx _ _ _ (sig_wsLeaf _), h1]
-      · rw [sigTL_aCaseLoop ch st maxW rest _ _ _ h, h1]
-
+    cases h1 : aCaseBreak ch st i tl stmt with
+    | error e => rw [h1] at h; cases h
+    | ok tl1 =>
+      rw [h1] at h
+      simp only at h
+      cases h2 : aCasePad ch maxW tl1 cond with
+      | error e => rw [h2] at h; cases h
+      | ok tl2 =>
+        rw [h2] at h
+        simp only at h
+        rw [sigTL_aCaseLoop ch st maxW rest _ _ _ h, sigTL_aCasePad ch maxW _ _ _ h2, sigTL_aCaseBreak ch st _ _ _ _ h1]
 
 theorem sigL_aCase (ch : Text) (st : ASt) (ks ks' : List FNode) (st' : ASt)
     (h : aCase ch st ks = .ok (ks', st')) : sigL ks' = sigL ks := by
